@@ -10,25 +10,7 @@ use crate::{fail, Sources, R};
 
 const TY: &str = "StandardRevocableToken";
 
-/// `const NAME: &str = "lit";` items of the file (any nesting level)
-fn str_consts(f: &syn::File) -> std::collections::BTreeMap<String, String> {
-    struct C(std::collections::BTreeMap<String, String>);
-    impl<'ast> syn::visit::Visit<'ast> for C {
-        fn visit_item_const(&mut self, c: &'ast syn::ItemConst) {
-            if let Some(l) = crate::mini::str_lit(&c.expr) {
-                self.0.insert(c.ident.to_string(), l);
-            }
-        }
-        fn visit_impl_item_const(&mut self, c: &'ast syn::ImplItemConst) {
-            if let Some(l) = crate::mini::str_lit(&c.expr) {
-                self.0.insert(c.ident.to_string(), l);
-            }
-        }
-    }
-    let mut c = C(Default::default());
-    syn::visit::Visit::visit_file(&mut c, f);
-    c.0
-}
+use crate::mini::str_consts;
 
 fn arm_variant(p: &syn::Pat) -> Option<(String, Option<String>)> {
     match p {
